@@ -1,4 +1,5 @@
 LEVELS = {}
 NOT_DECIDED = {
     'C12': ['how often the main loop polls the timers (scheduling granularity) is not decided: clauses are stated "at the next call"'],
+    'C06': ['the kernel delivers the byte stream faithfully (recv callee contract); interference from other asyncio tasks at await is not decided'],
 }
